@@ -453,7 +453,7 @@ Definition c16_expected (c : c16_case) : obs :=
   match c with C16 raw => OT "C16" [obs_result (spec_parse raw)] end.
 Definition c16_agree (e o : obs) : bool :=
   match e, o with
-  | OT _ [er], OT t [p; _; OL tb] => String.eqb t "C16" && res_agree tb er p
+  | OT _ [er], OT t (p :: _ :: OL tb :: _) => String.eqb t "C16" && res_agree tb er p
   | _, _ => false
   end.
 
@@ -466,7 +466,7 @@ Definition c16_agree (e o : obs) : bool :=
    (c) the specification's float range test agrees with Go's ParseFloat on every float lexeme printed. *)
 Definition c16_oracle (c : c16_case) (o : obs) : bool :=
   match c, o with
-  | C16 raw, OT t [p; enc; OL tb] =>
+  | C16 raw, OT t (p :: enc :: OL tb :: _) =>
     String.eqb t "C16" &&
     res_agree tb (obs_result (spec_parse raw)) p &&
     conv_consistent tb &&
